@@ -906,6 +906,12 @@ func genHostsFile(rng *rand.Rand) []byte {
 		default:
 			line = strings.ReplaceAll(genHostsLine(rng), "\n", "")
 		}
+		if len(line) > 60000 {
+			// lines of 64 KiB and more are outside the property as decided here (contract SCAN-1:
+			// bufio.Scanner gives up on them with ErrTooLong); the name generators make such
+			// lines since round 14
+			line = line[:60000]
+		}
 		sb.WriteString(line)
 		if i < nl-1 || rng.IntN(3) != 0 {
 			sb.WriteString(pick(rng, "\n", "\n", "\n", "\r\n"))
@@ -918,6 +924,16 @@ func genHostsFile(rng *rand.Rand) []byte {
 }
 
 func c08ParseCase(hs, src, readErr string, stream []byte) string {
+	if !c08LinesShort(stream, 65000) {
+		// whatever produced the file: no line of 64 KiB or more (SCAN-1)
+		ls := bytes.Split(stream, []byte{'\n'})
+		for i, l := range ls {
+			if len(l) >= 65000 {
+				ls[i] = l[:60000]
+			}
+		}
+		stream = bytes.Join(ls, []byte{'\n'})
+	}
 	return "C08.parse " + hs + " " + src + " " + readErr + " " + hx(stream) + " " + c08Table(stream)
 }
 
